@@ -191,6 +191,49 @@ Definition op_extend_clones (cl : nat -> bool) (l : list nat) (ids : list nat) :
   extend_go cl 0 l ids.
 
 
+(* ---------------------------------------------------------------- growth by a producer
+   extend_from_slice_clone / extend_from_within_clone (above), resize_with, extend / from_iter and
+   resize all write one produced element after the other and count it in `len` at once
+   (push_unchecked, SetLenOnDrop): when the k-th production - Clone::clone, the closure,
+   Iterator::next - panics, what was produced before stays in the vector.  `ids` are the
+   identities the productions would get, in order. *)
+
+(* resize_with(new_len, f): truncate, or new_len - len calls of f *)
+Definition op_resize_with (f : nat -> bool) (dp : dpan) (l : list nat) (new_len : nat) (ids : list nat) : outcome :=
+  if new_len <=? length l then op_truncate dp l new_len
+  else extend_go f 0 l (firstn (new_len - length l) ids).
+
+(* resize(new_len, v): truncate and drop v, or new_len - len - 1 clones of v and then v itself
+   (extend_with_unchecked); a panicking clone leaves the clones made so far, v is dropped by unwinding *)
+Definition op_resize (cl : nat -> bool) (dp : dpan) (l : list nat) (new_len : nat) (ids : list nat) (v : nat) : outcome :=
+  if new_len <=? length l then
+    let o := op_truncate dp l new_len in mkOutcome (final o) [] (dropped o ++ [v]) (unwound o) 0
+  else
+    let o := extend_go cl 0 l (firstn (new_len - length l - 1) ids) in
+    if unwound o then mkOutcome (final o) [] [v] true (calls o)
+    else mkOutcome (final o ++ [v]) [] [] false (calls o).
+
+(* extend(iterator) / from_iter_in: the iterator's k-th `next` may panic *)
+Definition op_extend_iter (nx : nat -> bool) (l : list nat) (ids : list nat) : outcome := extend_go nx 0 l ids.
+
+(* map (consuming, BumpVec only): in place when the target type fits, through into_iter and a new
+   vector otherwise; either way a closure that panics at its k-th call leaves nothing behind *)
+Definition op_map (l : list nat) (panic_at : option nat) : outcome :=
+  match panic_at with
+  | Some k => if k <? length l then mkOutcome [] [] l true (S k) else mkOutcome l [] [] false (length l)
+  | None => mkOutcome l [] [] false (length l)
+  end.
+
+(* dedup_by_key(key) = dedup_by(|a, b| key(a) == key(b)): two key calls per comparison, the
+   current element first; either may panic.  `key k x` = the value of the k-th call, None = panic *)
+Definition key_pred (key : nat -> nat -> option nat) : pred2 := fun k x prev =>
+  match key (2 * k) x with
+  | None => Panic
+  | Some a => match key (2 * k + 1) prev with None => Panic | Some b => Ret (a =? b) end
+  end.
+Definition op_dedup_by_key (key : nat -> nat -> option nat) (dp : dpan) (l : list nat) : outcome :=
+  op_dedup_by (key_pred key) dp l.
+
 (* ---------------------------------------------------------------- zero-sized element types
    Two operations have a branch of their own for zero-sized element types.  `fixed = false` is the
    code of the pinned commit (both were genuine defects, repaired in /repo; see known_findings). *)
